@@ -28,9 +28,9 @@ func (C13) Plan(tier string) core.Plan {
 
 func (C13) Info() core.Info {
 	return core.Info{
-		Rule:        "planned and random worlds (all label features, converters in every form, generators, defaults, duplicate keys) to whose target 1-2 hopeless parameters are added: no supplied label and no output slot of any converter PERMIT-matches them. Oracle on the returned error: it is the unsatisfied-argument type; Args contains every hopeless parameter; every element of Args is a parameter of the target without an exactly matching supplied value and outside the EXPECT fixpoint; Inputs equals the supplied values as a multiset of labels (after last-wins de-duplication); Converters contains every supplied converter (by function identity); the message contains the rendering of each missing argument. All list comparisons are order-insensitive (S1 decides their order). Non-trivial: >=1 converter and >=1 supplied value; distinct = distinct (world shape, event-log hash)",
+		Rule:        "planned and random worlds (all label features, converters in every form, generators, defaults, duplicate keys) to whose target 1-2 hopeless parameters are added (sometimes the judged call is preceded by a call of a second Func whose defaults are a prefix of the same defaults slice): no supplied label and no output slot of any converter PERMIT-matches them. Oracle on the returned error: it is the unsatisfied-argument type; Args contains every hopeless parameter; every element of Args is a parameter of the target without an exactly matching supplied value and outside the EXPECT fixpoint; Inputs equals the supplied values as a multiset of labels (after last-wins de-duplication); Converters contains every supplied converter (by function identity); the message contains the rendering of each missing argument. All list comparisons are order-insensitive (S1 decides their order). Non-trivial: >=1 converter and >=1 supplied value; distinct = distinct (world shape, event-log hash)",
 		Assumptions: []string{"a converter given as a raw function is identified by its function pointer, one given as *Func by pointer identity"},
-		Probes:      []string{"c13_errors_checked", "c13_args_with_derivable_sibling", "c13_inputs_nonempty", "c13_converters_nonempty", "c13_duplicate_keys", "c13_same_signature_converters", "s1_nonidentity_perms"},
+		Probes:      []string{"c13_errors_checked", "c13_args_with_derivable_sibling", "c13_inputs_nonempty", "c13_converters_nonempty", "c13_duplicate_keys", "c13_same_signature_converters", "c13_after_call_of_prefix_sharing_func", "s1_nonidentity_perms"},
 		Real:        realComponents,
 		Simulated:   simComponents,
 	}
@@ -154,14 +154,54 @@ func (C13) Gen(r *simrt.RNG, tier string) core.Case {
 		in = append(in, s)
 		t.In = append(in, t.In[pos:]...)
 	}
+	// two Funcs carved out of one defaults slice: the first call must not disturb
+	// what the second reports
+	if r.Chance(1, 6) {
+		var vals []int
+		for _, a := range w.Ops[0].Args {
+			if k := w.Args[a].Kind; k == world.ArgNamed || k == world.ArgTyped {
+				vals = append(vals, a)
+			}
+		}
+		if len(vals) >= 2 && len(w.Parties[0].Defaults) == 0 {
+			// move the supplied values into the defaults of party 0
+			var rest []int
+			for _, a := range w.Ops[0].Args {
+				if k := w.Args[a].Kind; !(k == world.ArgNamed || k == world.ArgTyped) {
+					rest = append(rest, a)
+				}
+			}
+			w.Parties[0].Defaults = vals
+			w.Ops[0].Args = rest
+			k := 1 + r.Intn(len(vals)-1)
+			t2 := w.Parties[0]
+			t2.Defaults = append([]int{}, vals[:k]...)
+			t2.SharePrefixOf = 1
+			w.Parties = append(w.Parties, t2)
+			// its call passes other values of its own (fresh options with unrelated names)
+			var args2 []int
+			args2 = append(args2, rest...)
+			for i := 0; i < len(vals)-k+1; i++ {
+				w.Args = append(w.Args, world.ArgSpec{Kind: world.ArgNamed, Label: world.Label{Name: []string{"p", "q", "r", "s", "t"}[i%5], Type: w.Args[vals[0]].Label.Type}, Spell: []string{"p", "q", "r", "s", "t"}[i%5]})
+				args2 = append(args2, len(w.Args)-1)
+			}
+			w.Ops = append([]world.Op{{Kind: world.OpCall, Target: len(w.Parties) - 1, Args: args2}}, w.Ops...)
+		}
+	}
 	return RCase{W: w}
 }
 
 func c13Valid(w world.World) bool {
-	if len(w.Ops) != 1 || w.Ops[0].Kind != world.OpCall || len(w.Faults) != 0 {
+	if len(w.Ops) == 0 || len(w.Faults) != 0 {
 		return false
 	}
-	v := model.ViewOf(&w, 0)
+	for _, o := range w.Ops {
+		if o.Kind != world.OpCall {
+			return false
+		}
+	}
+	last := len(w.Ops) - 1
+	v := model.ViewOf(&w, last)
 	if v.HasNilOpt || v.HasBadConv {
 		return false
 	}
@@ -170,7 +210,7 @@ func c13Valid(w world.World) bool {
 			return false
 		}
 	}
-	return len(hopelessParams(&w, v, w.Ops[0].Target)) > 0
+	return len(hopelessParams(&w, v, w.Ops[last].Target)) > 0
 }
 
 func (C13) Decode(raw json.RawMessage) (core.Case, error) { return decodeRCase(raw) }
@@ -196,8 +236,9 @@ func (C13) Run(c core.Case, ctx *core.Ctx) []core.Violation {
 		return nil
 	}
 	sh := world.ShapeHash(w)
-	view := model.ViewOf(&w, 0)
-	tgt := w.Ops[0].Target
+	last := len(w.Ops) - 1
+	view := model.ViewOf(&w, last)
+	tgt := w.Ops[last].Target
 	t := w.Parties[tgt]
 	hopeless := hopelessParams(&w, view, tgt)
 	availE, _ := model.LFP(&w, view, model.Expect, false)
@@ -205,7 +246,7 @@ func (C13) Run(c core.Case, ctx *core.Ctx) []core.Violation {
 	dupKeys := false
 	{
 		n := 0
-		for _, ai := range append(append([]int{}, t.Defaults...), w.Ops[0].Args...) {
+		for _, ai := range append(append([]int{}, t.Defaults...), w.Ops[last].Args...) {
 			if k := w.Args[ai].Kind; k == world.ArgNamed || k == world.ArgTyped {
 				n++
 			}
@@ -223,7 +264,10 @@ func (C13) Run(c core.Case, ctx *core.Ctx) []core.Violation {
 			finish(ctx, rt, sim)
 			return nil
 		}
-		res := rt.Results[0]
+		res := rt.Results[last]
+		if last > 0 {
+			ctx.St.Inc("c13_after_call_of_prefix_sharing_func")
+		}
 		switch {
 		case !res.Returned:
 			ctx.St.Inc("cross_c06_panic_or_divergence")
